@@ -537,6 +537,17 @@ func (db *DB) Open() error {
 		}
 	}
 
+	// Files that are not part of the chain ending at the newest file are left
+	// over as well: if this node was ahead of its new primary, a crash right
+	// after the snapshot was renamed into place leaves the snapshot next to
+	// the longer log it was about to replace. The snapshot is sent again when
+	// the node reconnects.
+	if ltxFilename != "" {
+		if err := db.removeOffChainLTXFiles(ltxFilename); err != nil {
+			return fmt.Errorf("remove ltx files off the chain: %w", err)
+		}
+	}
+
 	// Sync up WAL and last LTX file, if they both exist.
 	if ltxFilename != "" {
 		if err := db.syncWALToLTX(context.Background(), ltxFilename); err != nil {
@@ -870,6 +881,34 @@ func (db *DB) maxLTXFile(ctx context.Context) (string, error) {
 		max, filename = maxTXID, filepath.Join(db.LTXDir(), ent.Name())
 	}
 	return filename, nil
+}
+
+// removeOffChainLTXFiles removes every transaction file that does not belong to
+// the contiguous chain of files that ends with the newest file.
+func (db *DB) removeOffChainLTXFiles(newest string) error {
+	next, _, err := ltx.ParseFilename(filepath.Base(newest))
+	if err != nil {
+		return nil
+	}
+	ents, err := db.ReadLTXDir()
+	if err != nil {
+		return err
+	}
+	for i := len(ents) - 1; i >= 0; i-- {
+		name := ents[i].Name()
+		if name == filepath.Base(newest) {
+			continue
+		}
+		if minTXID, maxTXID, _ := ltx.ParseFilename(name); maxTXID+1 == next {
+			next = minTXID // previous link of the chain
+			continue
+		}
+		log.Printf("removing ltx file %q of %q, not part of the chain ending at %s", name, db.name, filepath.Base(newest))
+		if err := db.os.Remove("OPEN:OFFCHAIN", filepath.Join(db.LTXDir(), name)); err != nil {
+			return err
+		}
+	}
+	return nil
 }
 
 // syncWALToLTX truncates the WAL file to the last LTX file if the WAL info
